@@ -6,8 +6,10 @@ import (
 	"path/filepath"
 	"regexp"
 	"runtime"
+	"runtime/debug"
 	"sort"
 	"strings"
+	"syscall"
 	"time"
 
 	"verif/core"
@@ -538,11 +540,18 @@ func c11Ufs(ctx *core.Ctx, dotu bool) core.Result {
 		res.Inconclusive = "c11ufs: bystander setup failed"
 		return res
 	}
+	// a leaked *os.File that has become unreachable is closed by its finalizer at the next collection, which would
+	// hide the leak from the descriptor table: no collections while descriptors are being counted
+	defer debug.SetGCPercent(debug.SetGCPercent(-1))
+	stackBuf := make([]byte, 4<<20)
 	baseFds := fdsUnder(root)
 	base := libGoroutines()
 	files := []string{"file01xxx", "file02xxxxxx", "file05xxxxxxxxxxxxxxx", "file07xxxxxxxxxxxxxxxxxxxxx"}
 	for nopen := 0; nopen <= 6; nopen++ {
-		for _, cutKind := range []string{"close", "reset", "midframe", "pending-read"} {
+		for _, cutKind := range []string{"close", "reset", "midframe", "pending-read", "open-blocked"} {
+			if cutKind == "open-blocked" && nopen > 2 {
+				continue
+			}
 			res.Evals++
 			v := s.Dial()
 			if !attach(v) {
@@ -586,6 +595,49 @@ func c11Ufs(ctx *core.Ctx, dotu bool) core.Result {
 					_ = v.Send(&wire.Msg{Type: wire.Tread, Tag: 95, Fid: 10, Offset: 0, Count: 100}, &wire.Msg{Type: wire.Tstat, Tag: 96, Fid: 10}, &wire.Msg{Type: wire.Tclunk, Tag: 97, Fid: 10})
 				}
 				v.Hangup()
+			case "open-blocked":
+				// a Topen that is still inside the file server at the disconnect: open(2) of a named pipe blocks until
+				// a writer shows up, which happens only after the connection's close processing is over
+				fifo := filepath.Join(root, fmt.Sprintf("pipe-%d", nopen))
+				_ = os.Remove(fifo)
+				if err := syscall.Mkfifo(fifo, 0o600); err != nil {
+					res.Inconclusive = "c11ufs: mkfifo: " + err.Error()
+					return res
+				}
+				r1, e1 := v.Rpc(&wire.Msg{Type: wire.Twalk, Tag: 80, Fid: 0, Newfid: 40, Wname: []string{filepath.Base(fifo)}}, W)
+				if e1 != nil || r1.Msg == nil || r1.Msg.Type != wire.Rwalk {
+					res.Inconclusive = "c11ufs: walk to the named pipe failed"
+					return res
+				}
+				_ = v.Send(&wire.Msg{Type: wire.Topen, Tag: 81, Fid: 40, Mode: 0})
+				inOpen := waitFor(W, func() bool {
+					n := runtime.Stack(stackBuf, true)
+					for _, g := range strings.Split(string(stackBuf[:n]), "\n\n") {
+						if strings.Contains(g, "(*Ufs).Open") && strings.Contains(g, "syscall.") {
+							return true
+						}
+					}
+					return false
+				})
+				nclosed := s.Ctl.Passed("close.exit", 0, sched.AnyTag) // (connections of the Unix file server are not numbered)
+				v.Hangup()
+				closedOut := s.Ctl.WaitPassed("close.exit", 0, sched.AnyTag, nclosed+1, W)
+				// now let the open return
+				var wr *os.File
+				waitFor(W, func() bool {
+					f, err := os.OpenFile(fifo, os.O_WRONLY|syscall.O_NONBLOCK, 0)
+					wr = f
+					return err == nil
+				})
+				if wr != nil {
+					_ = wr.Close()
+				}
+				if !inOpen || !closedOut || wr == nil {
+					res.Count("open_blocked_not_arranged", 1)
+				} else {
+					res.Count("disconnects_during_blocked_open", 1)
+				}
+				defer os.Remove(fifo)
 			}
 			what := fmt.Sprintf("ufs dotu=%v, %d files open, cut=%s", dotu, nopen, cutKind)
 			ctx.Beat()
